@@ -32,7 +32,13 @@ instr = { path = "/verif/engine/instr" }
 explore = { path = "/verif/engine/explore" }
 """
 
-HEADER = "#![allow(warnings)]\n#![deny(improper_ctypes_definitions, improper_ctypes)]\n#[allow(unused_imports)] use cglue::trait_group;\n"
+HEADER0 = "#![allow(warnings)]\n#![deny(improper_ctypes_definitions, improper_ctypes)]\n"
+HEADER = HEADER0 + "#[allow(unused_imports)] use cglue::trait_group;\n"
+
+
+def header_for(body_text):
+    # inputs that already import the module at their root must not get it twice
+    return HEADER0 if "use cglue :: trait_group ;" in body_text else HEADER
 
 CONTROL_SRC = """
 use cglue::*;
@@ -101,7 +107,7 @@ def inputs_for(tier, Ctx):
     ins = []
     for k in range(8):
         ins.append(("hs_%s%d" % (tier[0], k), os.path.join(shards, "hs_%s%d" % (tier[0], k), "src", "lib.rs"), "traits"))
-    fams = ["hg_gn1", "hg_gn2", "hg_gn3", "hg_gopt", "hg_gali", "hg_gmut", "hg_gord"] + (["hg_gn4"] if tier == "thorough" else [])
+    fams = ["hg_gn1", "hg_gn2", "hg_gn3", "hg_gopt", "hg_gali", "hg_gmut", "hg_gord", "hg_gcase"] + (["hg_gn4"] if tier == "thorough" else [])
     for f in fams:
         ins.append((f, os.path.join(shards, f, "src", "lib.rs"), "groups"))
     ins.append(("life_defs", os.path.join(Ctx.ENGINE, "h_life", "src", "defs.rs"), "structure"))
@@ -187,7 +193,7 @@ def run(prop, tier, replay, Ctx):
         # file-level inner attributes of the input (lint allows) must not follow the header's items
         while body and body[0].replace(" ", "").startswith("#!["):
             body.pop(0)
-        text = HEADER + "\n".join(body) + "\n"
+        text = header_for("\n".join(body)) + "\n".join(body) + "\n"
         os.remove(out)
         write_if_changed(os.path.join(probes, crate, "src", "lib.rs"), text)
         write_if_changed(os.path.join(probes, crate, "Cargo.toml"), PROBE_TOML % (crate, repo, repo))
